@@ -101,16 +101,22 @@ func subseq(got, want []string) bool {
 }
 
 func c02(run *ev.Run) int {
-	run.SetRule("cases = (HTTP version x protocol x codec x kind) x code 1..16 x 16 message text classes, with error source {handler *Error, plain error, interceptor before/after}, details k in {0,1,3}, metadata multimap (one case in three with handler-set response headers/trailers under the same keys) and messages-before-error in {0,1,3} drawn per case from the seed (thorough: details and before enumerated); distinct by (config, code, text class, source, k, before)")
+	run.SetRule("cases = (HTTP version x protocol x codec x kind) x code 1..16 x 16 message text classes, with error source {handler *Error, plain error, interceptor before/after, coded error wrapping a context error, coded error inside a multi-error}, handlers with default settings and with compress-min 64 against gzip-sending clients, client contexts with and without a deadline, details k in {0,1,3}, metadata multimap (one case in three with handler-set response headers/trailers under the same keys) and messages-before-error in {0,1,3} drawn per case from the seed (thorough: details and before enumerated); distinct by (config, code, text class, source, k, before)")
 	run.Assume("messages are valid UTF-8; metadata is printable ASCII without leading/trailing blanks under non-reserved keys; gRPC over HTTP/1.1 keeps trailers under net/http's 4 KiB trailer limit")
 	ic := &c02Icept{before: map[string]error{}, after: map[string]error{}}
 	srv := svc.NewServer(connect.WithInterceptors(ic))
 	defer srv.Close()
+	// the same handlers configured to compress what they send above 64 bytes
+	// (error bodies and end-of-stream messages included, where the protocol
+	// allows it) for clients that send gzip themselves
+	srvZ := svc.NewServer(connect.WithInterceptors(ic), connect.WithCompressMinBytes(64))
+	defer srvZ.Close()
 	type cfgT struct {
 		http2 bool
 		proto string
 		codec string
 		kind  svc.Kind
+		z     bool
 	}
 	var cfgs []cfgT
 	for _, h2 := range []bool{false, true} {
@@ -120,17 +126,22 @@ func c02(run *ev.Run) int {
 					if k == svc.Bidi && !h2 {
 						continue
 					}
-					cfgs = append(cfgs, cfgT{h2, p, c, k})
+					cfgs = append(cfgs, cfgT{h2, p, c, k, false}, cfgT{h2, p, c, k, true})
 				}
 			}
 		}
 	}
 	classNames := []string{"empty", "ascii", "utf8-2", "utf8-3", "utf8-4", "nul", "controls", "del", "percent", "pct-escape", "pct-trail", "crlf", "blanks", "tabs", "quotes", "long"}
-	sources := []string{"handler", "handler", "handler", "plain", "icept-before", "icept-after", "wraps-ctx"}
+	sources := []string{"handler", "handler", "handler", "plain", "icept-before", "icept-after", "wraps-ctx", "joined"}
 	parallel(16, len(cfgs), func(ci int) {
 		c := cfgs[ci]
 		cfg := fmt.Sprintf("h2=%v/%s/%s/%s", c.http2, c.proto, c.codec, c.kind)
-		cs := srv.Clients(c.http2, svc.ProtoOpts(c.proto, c.codec)...)
+		srv, cs := srv, srv.Clients(c.http2, svc.ProtoOpts(c.proto, c.codec)...)
+		if c.z {
+			cfg += "/compress-min=64+send-gzip"
+			srv = srvZ
+			cs = srvZ.Clients(c.http2, append(svc.ProtoOpts(c.proto, c.codec), connect.WithSendGzip())...)
+		}
 		r := run.Rand("c02/" + cfg)
 		long := 8192
 		nkeys := 8
@@ -160,7 +171,7 @@ func c02(run *ev.Run) int {
 							before = 0
 						}
 						src := sources[r.Intn(len(sources))]
-						if src != "handler" && src != "wraps-ctx" && src != "icept-after" && before > 0 {
+						if src != "handler" && src != "wraps-ctx" && src != "joined" && src != "icept-after" && before > 0 {
 							before = 0
 						}
 						key := fmt.Sprintf("c02/%s/code=%d/text=%s/src=%s/k=%d/before=%d", cfg, code, cn, src, k, before)
@@ -215,10 +226,19 @@ func c02Case(run *ev.Run, srv *svc.Server, ic *c02Icept, cs *svc.ClientSet, kind
 			}
 		}
 		herr = ce
+		if src == "joined" {
+			// the coded error travels inside a multi-error (errors.Join, or
+			// fmt.Errorf with two %w): errors.As still finds it
+			if rr.Intn(2) == 0 {
+				herr = errors.Join(errors.New("clean-up also failed"), ce)
+			} else {
+				herr = fmt.Errorf("%w (while %w)", ce, errors.New("shutting down"))
+			}
+		}
 	}
 	prog := &svc.Program{}
 	var sent []*gen.Msg
-	badSend := (kind == svc.ServerStream || kind == svc.Bidi) && (src == "handler" || src == "plain" || src == "wraps-ctx") && rr.Intn(4) == 0
+	badSend := (kind == svc.ServerStream || kind == svc.Bidi) && (src == "handler" || src == "plain" || src == "wraps-ctx" || src == "joined") && rr.Intn(4) == 0
 	switch kind {
 	case svc.Unary, svc.ServerStream:
 		prog.Steps = append(prog.Steps, svc.Step{Op: "recv"})
@@ -260,7 +280,11 @@ func c02Case(run *ev.Run, srv *svc.Server, ic *c02Icept, cs *svc.ClientSet, kind
 		sharedKeys = "trailer=" + tk + " header=" + hk
 		run.Count("errors.with_shared_metadata_keys", 1)
 	}
-	call := srv.Reg.New("c02", prog)
+	prefix := "c02"
+	if strings.Contains(cfg, "compress-min") {
+		prefix = "c02z" // the two servers' registries count separately; the interceptor is shared
+	}
+	call := srv.Reg.New(prefix, prog)
 	defer srv.Reg.Drop(call)
 	defer cs.Tap.Forget(call.ID)
 	switch src {
@@ -282,8 +306,16 @@ func c02Case(run *ev.Run, srv *svc.Server, ic *c02Icept, cs *svc.ClientSet, kind
 		ic.mu.Unlock()
 	}()
 	var cl *svc.CLog
+	// half of the calls carry a (far) deadline, i.e. a timeout header and a
+	// handler context with a deadline: the error must not change because of it
+	ctx, cancelCtx := context.Background(), context.CancelFunc(func() {})
+	withDeadline := rr.Intn(2) == 0
+	if withDeadline {
+		ctx, cancelCtx = context.WithTimeout(ctx, 10*time.Minute)
+	}
+	defer cancelCtx()
 	ok, dump := watchdog(60*time.Second, func() {
-		cl = cs.Do(context.Background(), kind, call.ID, nil, []*gen.Msg{{Id: 7}, {Id: 8}})
+		cl = cs.Do(ctx, kind, call.ID, nil, []*gen.Msg{{Id: 7}, {Id: 8}})
 	})
 	run.Eval(fmt.Sprintf("%s|%d|%s|%s|%d|%d|%v", cfg, code, className, src, k, before, badSend))
 	if badSend {
@@ -293,7 +325,7 @@ func c02Case(run *ev.Run, srv *svc.Server, ic *c02Icept, cs *svc.ClientSet, kind
 		run.Violation(key+"/hang", "call did not return within 60 s", trunc(dump, 20000))
 		return
 	}
-	detail := map[string]any{"config": cfg, "code": code.String(), "text_class": className, "text": text, "source": src, "details": k, "before": before, "failed_send_first": badSend,
+	detail := map[string]any{"config": cfg, "code": code.String(), "text_class": className, "text": text, "source": src, "details": k, "before": before, "failed_send_first": badSend, "client_deadline": withDeadline,
 		"client_err": errStr(cl.Err), "client_msgs": gen.DescribeSeq(cl.Msgs), "meta_sent": meta, "handler_headers_trailers_sharing_keys": sharedKeys}
 	if cl.Err == nil {
 		run.Violation(key+"/delivered-as-success", "handler error was delivered to the client as success", detail)
